@@ -68,7 +68,10 @@ pub struct GenericParser<'a, 'b, Version, Purpose> {
   claims: HashMap<String, Box<dyn erased_serde::Serialize + 'b>>,
   #[cfg(rusty_paseto_verif)]
   claims: HashMap<String, Box<dyn erased_serde::Serialize + 'b>, crate::verif_hooks::SimBuildHasher>,
+  #[cfg(not(rusty_paseto_verif))]
   claim_validators: ValidatorMap,
+  #[cfg(rusty_paseto_verif)]
+  claim_validators: HashMap<String, Box<ValidatorFn>, crate::verif_hooks::SimBuildHasher>,
   footer: Footer<'a>,
   implicit_assertion: ImplicitAssertion<'a>,
 }
@@ -83,7 +86,10 @@ impl<'a, 'b, Version, Purpose> GenericParser<'a, 'b, Version, Purpose> {
       claims: HashMap::new(),
       #[cfg(rusty_paseto_verif)]
       claims: HashMap::with_hasher(crate::verif_hooks::SimBuildHasher::new()),
+      #[cfg(not(rusty_paseto_verif))]
       claim_validators: HashMap::new(),
+      #[cfg(rusty_paseto_verif)]
+      claim_validators: HashMap::with_hasher(crate::verif_hooks::SimBuildHasher::new()),
       footer: Default::default(),
       implicit_assertion: Default::default(),
     }
